@@ -306,7 +306,19 @@ void run_case(Rng& rng, std::uint64_t idx)
         {
             RecIntegrand<T> f = make_f(c, &rl[0].log);
             MarkCb<vchk_t> cb = {&rl[0]};
-            vchk_t a = hep::vegas(hep::make_integrand<T>(f, c.dims), calls, vegas_initial(c, gen), cb);
+            bool through_text = rng.below(2);
+            std::size_t cut = rng.range(1, n - 1);
+            vchk_t a = vegas_initial(c, gen);
+            if (through_text)
+            {
+                std::vector<std::size_t> c1(calls.begin(), calls.begin() + cut), c2(calls.begin() + cut, calls.end());
+                vchk_t first = hep::vegas(hep::make_integrand<T>(f, c.dims), c1, vegas_initial(c, gen), cb);
+                std::istringstream in(text_of_chk(first));
+                vchk_t re(in);
+                a = hep::vegas(hep::make_integrand<T>(f, c.dims), c2, re, cb);
+                count("rollbacks_of_a_run_that_was_resumed_through_text");
+            }
+            else a = hep::vegas(hep::make_integrand<T>(f, c.dims), calls, vegas_initial(c, gen), cb);
             if (rng.below(2)) (void)a.pdf();
             a.rollback(k);
             RecIntegrand<T> f2 = make_f(c, &rl2[0].log);
@@ -319,7 +331,20 @@ void run_case(Rng& rng, std::uint64_t idx)
         {
             RecIntegrand<T> f = make_f(c, &rl[0].log);
             MarkCb<mchk_t> cb = {&rl[0]};
-            mchk_t a = hep::multi_channel(hep::make_multi_channel_integrand<T>(f, c.dims, c.map, c.dims, c.channels), calls, mc_initial(c, gen), cb);
+            // optionally the run is interrupted, goes through text and is resumed before it is rolled back
+            bool through_text = rng.below(2);
+            std::size_t cut = rng.range(1, n - 1);
+            mchk_t a = mc_initial(c, gen);
+            if (through_text)
+            {
+                std::vector<std::size_t> c1(calls.begin(), calls.begin() + cut), c2(calls.begin() + cut, calls.end());
+                mchk_t first = hep::multi_channel(hep::make_multi_channel_integrand<T>(f, c.dims, c.map, c.dims, c.channels), c1, mc_initial(c, gen), cb);
+                std::istringstream in(text_of_chk(first));
+                mchk_t re(in);
+                a = hep::multi_channel(hep::make_multi_channel_integrand<T>(f, c.dims, c.map, c.dims, c.channels), c2, re, cb);
+                count("rollbacks_of_a_run_that_was_resumed_through_text");
+            }
+            else a = hep::multi_channel(hep::make_multi_channel_integrand<T>(f, c.dims, c.map, c.dims, c.channels), calls, mc_initial(c, gen), cb);
             if (rng.below(2)) (void)a.channel_weights();
             a.rollback(k);
             RecIntegrand<T> f2 = make_f(c, &rl2[0].log);
